@@ -668,11 +668,29 @@ def rule_call_validation(ctx, ix):
     else:
         ctx.fail("C10.must-pass-through", "compile/_tensor_method.py:TensorMethod.__call__:signature.bind", "arguments are not bound through self.signature.bind(*args, **kwargs) before the kernel call")
         return
-    # signature: keyword-only parameter per input format
-    init = ix.func(f"{TM}.__init__").node
+    # signature: keyword-only parameter per input format (templates; `.keys()` is transparent, locals are free)
+    import copy
+
+    from .core import _pat, tfind, tmatch, tsolve
+
+    class StripKeys(ast.NodeTransformer):
+        def visit_Call(self, n):
+            self.generic_visit(n)
+            if isinstance(n.func, ast.Attribute) and n.func.attr == "keys" and not n.args and not n.keywords:
+                return n.func.value
+            return n
+
+    init = StripKeys().visit(copy.deepcopy(ix.func(f"{TM}.__init__").node))
     ctx.instance("C10.must-pass-through")
-    s = u(init)
-    if "Parameter(parameter_name, Parameter.KEYWORD_ONLY, annotation=Tensor) for parameter_name in self._input_formats.keys()" in s and "if name != self._output_name" in s:
+    sig = None
+    for n, bb in tfind(init, "Signature([Parameter(_V_p, Parameter.KEYWORD_ONLY, annotation=Tensor) for _V_p in self._input_formats])"):
+        sig = bb
+    for n, bb in tfind(init, "Signature([Parameter(_V_p, Parameter.KEYWORD_ONLY, annotation=Tensor) for _V_p in _V_src])"):
+        if _origin(init, bb["_V_src"]) in ("self._input_formats",):
+            sig = bb
+    # the input formats are all formats but the output's
+    excl = any(True for _n, _b in tfind(init, "_V_n != self._output_name")) or any(True for _n, _b in tfind(init, "_V_n != _E_out"))
+    if sig is not None and excl:
         ctx.ok("C10.must-pass-through", "compile/_tensor_method.py:TensorMethod.__init__:signature")
     else:
         ctx.fail("C10.must-pass-through", "compile/_tensor_method.py:TensorMethod.__init__:signature", "signature is not one keyword-only parameter per input tensor")
@@ -680,15 +698,18 @@ def rule_call_validation(ctx, ix):
     # (so the per-target-index lookup of the validated sizes cannot fail with KeyError)
     ctx.instance("C10.must-pass-through")
     key = "compile/_tensor_method.py:TensorMethod.__init__:target indexes have participants"
-    s_ = u(init)
-    loops_ = [n for n in init.body if isinstance(n, ast.For) and u(n.iter) == "problem.assignment.target.indexes"]
     good = False
-    for l_ in loops_:
-        for st in l_.body:
+    for l_ in [n for n in ast.walk(init) if isinstance(n, ast.For) and isinstance(n.target, ast.Name) and u(n.iter) == "problem.assignment.target.indexes"]:
+        for st in ast.walk(l_):
             if isinstance(st, ast.If) and any(isinstance(x, ast.Raise) and "BroadcastTargetIndexError" in u(x) for x in st.body):
-                if re.fullmatch(rf"{u(l_.target)} not in (\w+)", u(st.test)):
+                bb = {"_V_i": l_.target.id}
+                if tmatch(_pat("_V_i not in _V_s"), st.test, bb):
+                    org = _origin(init, bb["_V_s"])
+                    if org in ("set(problem.assignment.expression.index_participants())", "problem.assignment.expression.index_participants()", "frozenset(problem.assignment.expression.index_participants())"):
+                        good = True
+                elif u(st.test) == f"{l_.target.id} not in problem.assignment.expression.index_participants()":
                     good = True
-    if good and "set(problem.assignment.expression.index_participants().keys())" in s_:
+    if good:
         ctx.ok("C10.must-pass-through", key)
     else:
         ctx.fail("C10.must-pass-through", key, "TensorMethod.__init__ does not reject target indexes missing from the right-hand side (KeyError at call time)")
@@ -703,6 +724,9 @@ def rule_call_semantics(ctx, ix):
 
     ctx.rule("C10.call-semantics", "abstract evaluation of TensorMethod.__call__: no inconsistent argument reaches the kernel", min_instances=30)
     fn = ix.func(f"{TM}.__call__").node
+    tm_mod = TM.rsplit(".", 1)[0]
+    # private helpers of the module (extracted validation steps) are interpreted too
+    MG = {f.name: f.node for q, f in ix.funcs.items() if f.module == tm_mod and q == f"{tm_mod}.{f.name}"}
 
     def parse(text):
         lhs, rhs = text.split("=")
@@ -778,7 +802,7 @@ def rule_call_semantics(ctx, ix):
             key = f"compile/_tensor_method.py:TensorMethod.__call__:{text} [participant order {po}]"
             problems = []
             entered = 0
-            for assume, (kind, val) in S.explore(fn, [self_], dict(tensors)):
+            for assume, (kind, val) in S.explore(fn, [self_], dict(tensors), globals_=MG):
                 if kind == "uninterpretable":
                     problems.append(f"validation code not interpretable: {val}")
                     continue
@@ -856,7 +880,7 @@ def rule_call_semantics(ctx, ix):
     bad_cases.append(("positional argument", {"x": tensors["x"]}, (tensors["A"],), "TypeError"))
     for label, kwargs, args, want in bad_cases:
         problems = []
-        for assume, (kind, val) in S.explore(fn, [self_, *args], kwargs):
+        for assume, (kind, val) in S.explore(fn, [self_, *args], kwargs, globals_=MG):
             if kind == "kernel":
                 problems.append("the kernel is entered")
             elif kind == "raise" and val != want:
